@@ -725,4 +725,63 @@ theorem reverse_far_facts (a f maxrad X Y Z : ℝ) (hmr : 0 ≤ maxrad)
     rw [this, hcy]; ring
   · field_simp
 
+/-! ## The foot point is the nearest point of the ellipsoid; size of the surface point -/
+
+/-- the prime-vertical radius `N = a/√(1 − e² s²)` of a unit pair: `N > 0` and `N²(c² + (1−f)² s²) = a²` -/
+theorem primeVertical (a f s c : ℝ) (ha : 0 < a) (hf : f < 1) (hu : s ^ 2 + c ^ 2 = 1) :
+    0 < a / Real.sqrt (1 - f * (2 - f) * s ^ 2) ∧
+    (a / Real.sqrt (1 - f * (2 - f) * s ^ 2)) ^ 2 * (c ^ 2 + (1 - f) ^ 2 * s ^ 2) = a ^ 2 := by
+  have hm : 0 < (1 - f) ^ 2 := pow_pos (by linarith) 2
+  have hs1 : s ^ 2 ≤ 1 := by nlinarith [sq_nonneg c]
+  have e : 1 - f * (2 - f) * s ^ 2 = c ^ 2 + (1 - f) ^ 2 * s ^ 2 := by linear_combination (-1 : ℝ) * hu
+  have hpos : 0 < c ^ 2 + (1 - f) ^ 2 * s ^ 2 := by
+    by_cases hs : s = 0
+    · have : c ^ 2 = 1 := by rw [hs] at hu; linarith
+      rw [hs, this]; norm_num
+    · have : 0 < s ^ 2 := by positivity
+      have : 0 < (1 - f) ^ 2 * s ^ 2 := by positivity
+      nlinarith [sq_nonneg c]
+  rw [e]
+  have hsq := Real.sq_sqrt hpos.le
+  have hspos : 0 < Real.sqrt (c ^ 2 + (1 - f) ^ 2 * s ^ 2) := Real.sqrt_pos.mpr hpos
+  refine ⟨by positivity, ?_⟩
+  rw [div_pow, hsq]; field_simp
+
+/-- **the foot point of the normal is the nearest point of the ellipsoid** when the point lies on the same side of the
+axis and of the equatorial plane as its foot (`N + h ≥ 0`, `mN + h ≥ 0`, `m = (1−f)²`): for every `(x, y, z)` of the
+ellipsoid `(x² + y²) m + z² = a² m` the squared distance is at least `h²`.  The excess is
+`(N+h)/N · ((x−X₀)² + (y−Y₀)²) + (mN+h)/(mN) · (z−Z₀)²`. -/
+theorem foot_nearest (a m N s c sl cl h x y z : ℝ) (hm : 0 < m) (hN : 0 < N)
+    (hu : s ^ 2 + c ^ 2 = 1) (hl : sl ^ 2 + cl ^ 2 = 1) (hA : N ^ 2 * (c ^ 2 + m * s ^ 2) = a ^ 2)
+    (hQ : (x ^ 2 + y ^ 2) * m + z ^ 2 = a ^ 2 * m) (hsR : 0 ≤ N + h) (hsZ : 0 ≤ m * N + h) :
+    h ^ 2 ≤ ((N + h) * c * cl - x) ^ 2 + ((N + h) * c * sl - y) ^ 2 + ((m * N + h) * s - z) ^ 2 := by
+  have id : N * m * (((N + h) * c * cl - x) ^ 2 + ((N + h) * c * sl - y) ^ 2 + ((m * N + h) * s - z) ^ 2 - h ^ 2) =
+      m * (N + h) * ((x - N * c * cl) ^ 2 + (y - N * c * sl) ^ 2) + (m * N + h) * (z - m * N * s) ^ 2 := by
+    linear_combination (N * h ^ 2 * m) * hu + (N * c ^ 2 * h * m * (N + h)) * hl + (h * m) * hA + (-h) * hQ
+  have hrhs : 0 ≤ m * (N + h) * ((x - N * c * cl) ^ 2 + (y - N * c * sl) ^ 2) + (m * N + h) * (z - m * N * s) ^ 2 := by
+    have h1 : 0 ≤ m * (N + h) := mul_nonneg hm.le hsR
+    positivity
+  have hNm : 0 < N * m := by positivity
+  have : 0 ≤ N * m * (((N + h) * c * cl - x) ^ 2 + ((N + h) * c * sl - y) ^ 2 + ((m * N + h) * s - z) ^ 2 - h ^ 2) := by
+    rw [id]; exact hrhs
+  have := nonneg_of_mul_nonneg_right this hNm
+  linarith
+
+/-- the surface point `(N c, (1−f)² N s)` is no farther from the centre than the larger semi-axis -/
+theorem surface_norm_le (a f N s c : ℝ) (hf : f < 1)
+    (hA : N ^ 2 * (c ^ 2 + (1 - f) ^ 2 * s ^ 2) = a ^ 2) :
+    (N * c) ^ 2 + ((1 - f) ^ 2 * N * s) ^ 2 ≤ (a * max 1 (1 - f)) ^ 2 := by
+  have h1f : 0 < 1 - f := by linarith
+  by_cases hc : 1 - f ≤ 1
+  · rw [max_eq_left hc, mul_one, ← hA]
+    have : (1 - f) ^ 2 ≤ 1 := by nlinarith
+    have h2 : ((1 - f) ^ 2) ^ 2 ≤ (1 - f) ^ 2 := by nlinarith [sq_nonneg (1 - f)]
+    have : ((1 - f) ^ 2) ^ 2 * (N * s) ^ 2 ≤ (1 - f) ^ 2 * (N * s) ^ 2 := mul_le_mul_of_nonneg_right h2 (sq_nonneg _)
+    nlinarith
+  · have hc := not_le.mp hc
+    rw [max_eq_right hc.le, mul_pow a, ← hA]
+    have h2 : 1 ≤ (1 - f) ^ 2 := by nlinarith
+    have : (N * c) ^ 2 ≤ (1 - f) ^ 2 * (N * c) ^ 2 := by nlinarith [sq_nonneg (N * c)]
+    nlinarith
+
 end GeoVerif.GeocentricProofs
